@@ -550,6 +550,39 @@ def gen_history(rng, version, n, persist=False, ota=True, sleep=True, malformed=
     return hist
 
 
+def pending_pair_burst(rng, version, hist):
+    """Weave one scripted smart-sleep episode into a history (protocol >= 2.0): a dimmer child reports two
+    value types, the node announces sleep, the controller sets BOTH types, the node then reports only one of
+    them (possibly the same value again), asks for the other, and wakes up once or twice.  What is pending
+    for the type that was not reported must still be answered and delivered."""
+    if version in ("1.4", "1.5") or rng.random() < 0.25:
+        return hist
+    node = rng.choice([1, 2, 7, 42])
+    child = rng.choice([0, 1, 5])
+    wake = f"{node};255;3;0;{32 if version == '2.2' else 22};{rng.randrange(1000)}\n"
+    a, b = rng.choice([(2, 3), (3, 2)])
+    val = {2: lambda: rng.choice(["0", "1"]), 3: lambda: str(rng.randrange(101))}
+    first = {2: val[2](), 3: val[3]()}
+    script = [("L", f"{node};255;0;0;17;{rng.choice([version, version, '2.0', '1.5'])}\n"),
+              ("L", f"{node};{child};0;0;4;dimmer\n"),
+              ("L", f"{node};{child};1;0;2;{first[2]}\n"),
+              ("L", f"{node};{child};1;0;3;{first[3]}\n"),
+              ("L", wake),
+              ("S", node, child, a, val[a](), rng.choice([None, 0, 1])),
+              ("S", node, child, b, val[b](), None),
+              ("L", f"{node};{child};1;0;{a};{rng.choice([first[a], val[a]()])}\n"),
+              ("L", f"{node};{child};2;0;{b};\n"),
+              ("L", wake)]
+    if rng.random() < 0.5:
+        script += [("L", f"{node};{child};2;0;{a};\n"), ("L", wake)]
+    out = list(hist)
+    pos = rng.randrange(len(out) + 1)
+    for op in script:
+        out.insert(pos, op)
+        pos = rng.randrange(pos + 1, min(len(out), pos + 3) + 1)
+    return out
+
+
 def fw_hex(*words):
     import struct
     return struct.pack(f"<{len(words)}H", *words).hex()
